@@ -7,10 +7,10 @@ reg("C07",
          "(event kind, attribute, offset/length class, link security, queue ownership relation, outcome) combinations observed",
     bound="queue sizes S in {16,64}, 3 connections. full alphabet: 102 events per connection = Prepare(6 attributes: rw, second rw, read-only, requires_encryption, invalid handle, "
           "write-handler value x offset {0,1,size,size+1} x length {0,1,max that fits,max+1}), Execute(0|1|2), Write, client_disconnected, toggle encryption - depth bound 5 "
-          "(quick) / 7 (thorough), cut by the deadline: the completed depth is reported per unit (measured: S=16 depth 4 quick / 5 thorough, S=64 depth 3 quick / 4 thorough). "
-          "reduced alphabet (11 events per connection: 6 prepares, Execute 0|1, Write, disconnect, toggle): depth bound 8 quick / 10 thorough (measured 6-8 quick). "
+          "(quick) / 7 (thorough), cut by the deadline: the completed depth is reported per unit (measured on a heavily loaded 16 core machine: S=16 depth 4 quick / 5 thorough, S=64 depth 3 quick / 4 thorough). "
+          "reduced alphabet (11 events per connection: 6 prepares, Execute 0|1, Write, disconnect, toggle): depth bound 8 quick / 10 thorough (measured: S=16 6-8 quick / 10 thorough, S=64 5-6 quick / 7 thorough). "
           "link layer world (real link_layer<server<shared_write_queue<64>>, llw::radio>, events CONNECT_IND by two centrals, 2 prepares, Execute 0|1, LL_TERMINATE_IND, "
-          "supervision timeout, empty event, advertising timeout): all sequences of length <= 7 quick / <= 9 thorough (cut by deadline)",
+          "supervision timeout, empty event, advertising timeout): all sequences of length <= 7 quick / <= 9 thorough, cut by the deadline (measured 6 quick / 8 thorough)",
     units=[dict(src="harness/C07_prepared_writes.cpp",
                 variants=[dict(name="q16", defs=["QUEUE=16"]), dict(name="q64", defs=["QUEUE=64"]),
                           dict(name="q16-lite", defs=["QUEUE=16", "LITE=1"]), dict(name="q64-lite", defs=["QUEUE=64", "LITE=1"])]),
